@@ -4,7 +4,7 @@ from vlib import *  # noqa
 LEVEL = "model_checking"
 RULE = ("TLC explores MessageQSeq.tla (whole API calls, sends reordered, releases after receives) exhaustively for depth "
         "1..5; every edge of each state graph is replayed on the real messageq.c at several message sizes/slacks/initialisers "
-        "and validated by TLC against TraceMessageQSeq.tla; then for every depth 1..32 x message size {1,3,4,7,24,1000,4096} (+ 65535 for depths 2,3,17,32) x "
+        "and validated by TLC against TraceMessageQSeq.tla; then for every depth 1..32 x message size {1,3,4,7,12,24,1000,4096} (+ 65535 for depths 2,3,17,32; 66000-claim history on depth 3) x "
         "slack {0,1,size-1} x {messageq_init, MESSAGEQ_VAR_INIT} a systematic history (fill, reordered sends, wrap, drain) and "
         "seeded random histories. A case = one execution; distinct by event-text hash; non-trivial = at least one call.")
 ASSUMPTIONS = ["sequential use (C04 covers concurrency)", "releases are issued in receive order (API contract)"]
